@@ -226,14 +226,33 @@ impl Exec for VTimeExec {
                 so.tags.push(classify(ns, base, voucher));
                 so
             }
-            ["now", delta, kind] => {
+            // `new_or_die` (track apigaps): a value inside the rule, a panic outside, never anything else
+            ["new_or_die", ns, base, voucher] => {
+                let Some((ns, dt, base, voucher)) = parse_triple(ns, base, voucher) else { return StepOut::bad() };
+                // the construction and the accessors are caught separately: an invalid value that
+                // `new_or_die` lets through must not hide behind the accessors' own self-check panic
+                let made = catch_unwind(AssertUnwindSafe(|| VouchedTime::new_or_die(dt, base, voucher_of(voucher))));
+                let res = made.map(|vt| {
+                    catch_unwind(AssertUnwindSafe(|| {
+                        let lt = vt.get_local_time();
+                        vt.check_or_die();
+                        lt
+                    }))
+                    .ok()
+                });
+                let mut so = judge_or_die("new_or_die", res, ns, Some((base, voucher)));
+                so.tags.push(format!("or_die_{}", classify(ns, base, voucher)));
+                so
+            }
+            [op @ ("now" | "now_or_die"), delta, kind] => {
                 let Ok(delta) = delta.parse::<i128>() else { return StepOut::bad() };
                 if !matches!(*kind, "ok" | "bad" | "fail") {
                     return StepOut::bad();
                 }
+                let or_die = *op == "now_or_die";
                 let mut seen: Option<(i128, Option<(u64, u64)>)> = None;
                 let res = catch_unwind(AssertUnwindSafe(|| {
-                    VouchedTime::now(|now| {
+                    let provider = |now: time::OffsetDateTime| {
                         let clock = now.unix_timestamp_nanos();
                         if *kind == "fail" {
                             seen = Some((clock, None));
@@ -244,11 +263,22 @@ impl Exec for VTimeExec {
                         let voucher = params().nfs.vouch(vouched);
                         seen = Some((clock, Some((base, bits_of(voucher)))));
                         Ok((base, voucher))
-                    })
-                    .map(|vt| {
-                        let lt = vt.get_local_time();
-                        vt.check_or_die();
-                        lt
+                    };
+                    let made = if or_die { Ok(VouchedTime::now_or_die(provider)) } else { VouchedTime::now(provider) };
+                    made.map(|vt| {
+                        if or_die {
+                            // caught separately (see `new_or_die`)
+                            catch_unwind(AssertUnwindSafe(|| {
+                                let lt = vt.get_local_time();
+                                vt.check_or_die();
+                                lt
+                            }))
+                            .ok()
+                        } else {
+                            let lt = vt.get_local_time();
+                            vt.check_or_die();
+                            Some(lt)
+                        }
                     })
                 }));
                 let Some((clock, answer)) = seen else {
@@ -257,13 +287,18 @@ impl Exec for VTimeExec {
                     so.violations.push("C14 now() did not consult the provider".into());
                     return so;
                 };
+                let verb = if or_die { "nowat_or_die" } else { "nowat" };
                 let line = match answer {
-                    Some((b, v)) => format!("nowat {} {} {}", clock, b, v),
-                    None => format!("nowat {} fail", clock),
+                    Some((b, v)) => format!("{} {} {} {}", verb, clock, b, v),
+                    None => format!("{} {} fail", verb, clock),
                 };
-                let mut so = judge_new("now", res, clock, answer);
+                let mut so = if or_die {
+                    judge_or_die("now_or_die", res.map(|r| r.expect("now_or_die returned")), clock, answer)
+                } else {
+                    judge_new("now", res.map(|r| r.map(|lt| lt.expect("not caught separately"))), clock, answer)
+                };
                 so.obs.insert(0, late_input("now", &line));
-                so.tags.push(format!("now_{}", kind));
+                so.tags.push(format!("{}_{}", op, kind));
                 so
             }
             _ => StepOut::bad(),
@@ -304,6 +339,41 @@ fn judge_new(
         Err(_) => {
             so.obs.push("panic".into());
             so.violations.push(format!("C14 panicked: {}", desc));
+        }
+    }
+    so
+}
+
+/// Observation + oracle for an `_or_die` constructor: a value exactly inside the rule, a panic outside.
+fn judge_or_die(what: &str, res: std::thread::Result<Option<time::PrimitiveDateTime>>, ns: i128, answer: Option<(u64, u64)>) -> StepOut {
+    let mut so = StepOut::default();
+    let expected = match answer {
+        Some((base, voucher)) => c14_expected(ns, base, voucher),
+        None => false,
+    };
+    let desc = format!("{} ns={} answer={:?}", what, ns, answer);
+    match res {
+        Ok(lt) => {
+            match lt {
+                Some(lt) => {
+                    so.obs.push(format!("ok lt={}", ns_of(lt)));
+                    if ns_of(lt) != ns {
+                        so.violations.push(format!("C14 get_local_time reports {} instead of the construction time: {}", ns_of(lt), desc));
+                    }
+                }
+                None => so.obs.push("ok lt=panic".into()),
+            }
+            if !expected {
+                so.violations.push(format!("C14 a VouchedTime exists outside the rule: {}", desc));
+            } else if lt.is_none() {
+                so.violations.push(format!("C14 get_local_time / check_or_die panicked on a value inside the rule: {}", desc));
+            }
+        }
+        Err(_) => {
+            so.obs.push("panic".into());
+            if expected {
+                so.violations.push(format!("C14 died inside the rule: {}", desc));
+            }
         }
     }
     so
@@ -388,6 +458,12 @@ fn random_local(rng: &mut Rng) -> i128 {
         0 => *rng.pick(&special_locals()),
         1 => rng.range(0, 70_000) as i128 * MS + rng.below(1_000_000) as i128, // first minute after the epoch
         2 => -(rng.range(0, 70_000) as i128 * MS) - rng.below(1_000_000) as i128, // just before it
+        3 if rng.chance(1, 2) => {
+            // just around a random multiple of a power of two (in ms)
+            let k = rng.range(8, 46) as u32;
+            let m = 1 + rng.below(((hi.div_euclid(MS)) >> k).max(1) as u64) as i128;
+            ((m << k) + rng.range(0, 6_000) as i128 - 3_000) * MS + rng.below(1_000_000) as i128
+        }
         3 => T0_MS * MS + rng.below(1u64 << 50) as i128,
         4 => hi - rng.below(1u64 << 40) as i128,
         5 => lo + rng.below(1u64 << 40) as i128,
@@ -431,6 +507,7 @@ impl Family for VTimeFamily {
             for base in bases_for(l) {
                 let good = bits_of(p.nfs.vouch(base));
                 ops.push(format!("new {} {} {}", ns, base, good));
+                ops.push(format!("new_or_die {} {} {}", ns, base, good));
                 ops.push(format!("check {} {} {}", ns, base, good));
                 ops.push(format!("new {} {} {}", ns, base, bits_of(p.nfs.vouch(base.wrapping_add(1)))));
                 if thorough {
@@ -440,13 +517,43 @@ impl Family for VTimeFamily {
             }
             cases.push(ops);
         }
+        // Power-of-two boundaries of the millisecond timestamps: an in-window (local, base) pair
+        // that straddles m * 2^k ms (local just above and base just below, and the other way
+        // round), plus the same pairs pushed just outside the window.  Nothing in the property
+        // depends on where in the 64-bit range the pair sits, so every verdict must be the one the
+        // signed difference gives; "cheap" bit tricks (xor / shift pre-filters, truncating casts)
+        // differ exactly on such pairs.
+        let max_l = max_ns().div_euclid(MS);
+        for k in 8u32..=62 {
+            let mut ops = Vec::new();
+            for m in [1i128, 2, 3, 5, 7] {
+                let b = m << k;
+                if b - 60_000 < 0 || b + 60_000 > max_l {
+                    continue;
+                }
+                for (l, base) in [
+                    (b + 500, b - 1_000), (b, b - 1), (b + 2_989, b - 1), (b + 2_990, b - 1),      // local ahead of base
+                    (b - 1_000, b + 500), (b - 1, b), (b - 59_899, b), (b - 59_900, b + 1),         // local behind base
+                    (b + 1, b + 1), (b - 1, b - 1),
+                ] {
+                    let base = base as u64;
+                    ops.push(format!("new {} {} {}", l * MS + 123_456, base, bits_of(p.nfs.vouch(base))));
+                }
+            }
+            if !ops.is_empty() {
+                cases.push(ops);
+            }
+        }
         let mut ops = Vec::new();
         for d in [-2992i64, -2991, -2990, -2989, -100, 0, 100, 59_800, 59_899, 59_900, 59_901, 59_902] {
             // d = base - clock; the reading happens inside now(), so exact edges are hit
             ops.push(format!("now {} ok", -d));
             ops.push(format!("now {} bad", -d));
+            ops.push(format!("now_or_die {} ok", -d));
         }
         ops.push("now 0 fail".to_string());
+        ops.push("now_or_die 0 fail".to_string());
+        ops.push("now_or_die 0 bad".to_string());
         cases.push(ops);
         cases
     }
@@ -471,7 +578,8 @@ impl Family for VTimeFamily {
                         0 => *rng.pick(&[-2991i64, -2990, 59_900, 59_901]),
                         _ => rng.range(0, 70_000) as i64 - 5_000,
                     };
-                    ops.push(format!("now {} {}", -d, *rng.pick(&["ok", "ok", "ok", "bad", "fail"])));
+                    let verb = if rng.chance(1, 4) { "now_or_die" } else { "now" };
+                    ops.push(format!("{} {} {}", verb, -d, *rng.pick(&["ok", "ok", "ok", "bad", "fail"])));
                 }
                 _ => {
                     let ns = random_local(rng);
@@ -486,7 +594,7 @@ impl Family for VTimeFamily {
                     };
                     let k = rng.below(12);
                     let v = voucher_for(k, base, rng);
-                    let op = if rng.chance(3, 4) { "new" } else { "check" };
+                    let op = *rng.pick(&["new", "new", "new", "check", "new_or_die"]);
                     ops.push(format!("{} {} {} {}", op, ns, base, v));
                 }
             }
